@@ -48,6 +48,12 @@ class C20(Property):
                     argv.insert(rng.randrange(len(argv) + 1), rng.choice([b"--help", b"-h", b"--version", b"-V"]))
                 elif m < 0.55:
                     argv = argv + [b"--help", b"--help"]
+                elif m < 0.67:
+                    # an item the parser does not expect, holding characters a terminal would interpret (escape sequences, tab,
+                    # bell, backspace, CR): error messages quote the user's input -- the same bytes in every build
+                    argv = list(argv)
+                    argv.insert(rng.randrange(len(argv) + 1),
+                                rng.choice([b"\x1b[2Jboom", b"a\tb", b"--no\x07pe", b"x\x08y", b"-\x1b[31mred", b"cr\rlf", b"--k=\x1b[0m"]))
                 cases.append(Case("g%dp%d" % (k, j), opts, argv, tags={"role": "parse"}))
             k += 1
         return cases
